@@ -20,6 +20,8 @@ from vcheck import core
 # classes of failing inputs (known_findings are matched by these keys)
 KEY_D12A = 'default-warper-nan-label-collapses-below-median'        # fix: c18-halfrank-nan
 KEY_D12B = 'dynamic-range-beyond-float64-resolution'                # known finding
+KEY_F32_NOISE = 'gauss-transform-float32-rank-noise'                # known finding
+LAST_REVERSAL = [None]    # (|image difference|, magnitude) of the reversal judge_order reported last
 KEY_OVERFLOW = 'label-magnitude-near-float64-max'                   # known finding
 KEY_MARGIN = 'infeasible-margin-absorbed-at-large-magnitude'        # known finding
 KEY_UNWARP_MEDIAN = 'halfrank-unwarp-threshold-is-median-of-unique-labels'   # fix: c18-halfrank-unwarp-median
@@ -163,7 +165,7 @@ def dense_ranks(vals):
   return [pos[v] if v == v else None for v in vals]
 
 
-def order_relation(model_ord, real_vals):
+def order_relation(model_ord, real_vals, tol=0.0):
   """Compare the order type of the real output with the model's.
   Returns 'equal', 'coarser' (real merges classes the model separates, no reversal) or
   'different' (a reversal or a split of a model class)."""
@@ -173,7 +175,9 @@ def order_relation(model_ord, real_vals):
   m = np.array([model_ord[i] for i in idx], dtype=np.int64)
   r = np.array([real_vals[i] for i in idx], dtype=np.float64)
   sm = np.sign(m[:, None] - m[None, :])
-  sr = np.sign(r[:, None] - r[None, :])
+  dr = r[:, None] - r[None, :]
+  dr[np.abs(dr) <= tol] = 0.0          # images within `tol` count as merged (float32 rounding noise)
+  sr = np.sign(dr)
   if np.array_equal(sm, sr):
     return 'equal'
   if np.any(sm * sr < 0) or np.any((sm == 0) & (sr != 0)):
@@ -284,8 +288,12 @@ def judge_order(xs, out, strict):
   sx = pair_signs([xs[i] for i in idx])
   so = pair_signs([out[i] for i in idx])
   rev = np.argwhere(sx * so < 0)
+  LAST_REVERSAL[0] = None
   if len(rev):
     i, j = idx[rev[0][0]], idx[rev[0][1]]
+    # the LARGEST reversal decides whether it can be rounding noise
+    worst = max(abs(out[idx[a]] - out[idx[b]]) for a, b in rev)
+    LAST_REVERSAL[0] = (worst, max(abs(out[k]) for k in idx))
     return 'order reversed: labels %r, %r -> %r, %r' % (xs[i], xs[j], out[i], out[j])
   spl = np.argwhere((sx == 0) & (so != 0))
   if len(spl):
@@ -347,7 +355,11 @@ def judge_pipeline(cx, op, xs, res, kind):
   msg = judge_order(xs, out, strict=(op in ('default', 'infeasible')))
   if msg is None:
     return
-  if is_reversal(msg):
+  rv = LAST_REVERSAL[0]
+  if is_reversal(msg) and msg.startswith('order reversed') and cls == 'resolution' and op == 'outlier' and rv is not None and \
+     rv[0] <= 4 * 2.0 ** -23 * max(1.0, rv[1]):
+    fail(KEY_F32_NOISE, msg + ' (images within 4 float32 ulps: labels closer than 2^-40 of the range)')
+  elif is_reversal(msg):
     fail('order-reversed:' + op, msg)
   elif not strict:
     fail(KEY_D12B, msg + ' (labels closer than float64 can separate after normalising by the range)')
@@ -384,8 +396,15 @@ def judge_component(cx, op, xs, res, kind):
     return
   msg = judge_order(xs, out, strict=False)
   if msg is not None:
-    if op == 'gauss_rank':
+    rv = LAST_REVERSAL[0]
+    f32_noise = (cls == 'resolution' and op in ('gauss', 'gauss_rank') and rv is not None and
+                 rv[0] <= 4 * 2.0 ** -23 * max(1.0, rv[1]))
+    if op == 'gauss_rank' and not f32_noise:
       fail(KEY_GAUSS_RANK, msg + ' — use_rank=True takes np.argsort (a permutation) for the ranks')
+    elif f32_noise:
+      # labels the float32 Gaussian transform cannot separate come out within a few float32 ulps of
+      # each other, in an order decided by rounding: recorded, distinct from a real reversal
+      fail(KEY_F32_NOISE, msg + ' (images within %g = 4 float32 ulps: labels closer than 2^-40 of the range)' % (4 * 2.0 ** -23 * max(1.0, rv[1])))
     else:
       fail('order-reversed:' + op, msg)
 
@@ -510,7 +529,11 @@ def tie_cases(cx, cases):
       continue
     if cls != 'ok':
       # floats leave the field: only "real is a coarsening of the exact order type" is compared
-      if op != 'detect' and order_relation(m['ord'], res['out']) == 'different':
+      f32tol = 0.0
+      if op in ('gauss', 'gauss_rank', 'outlier') and cls == 'resolution':
+        fin = [abs(v) for v in res['out'] if v == v and math.isfinite(v)]
+        f32tol = 4 * 2.0 ** -23 * max([1.0] + fin)      # see known finding gauss-transform-float32-rank-noise
+      if op != 'detect' and order_relation(m['ord'], res['out'], f32tol) == 'different':
         c.tie_break('%s: order type (weak, beyond float resolution)' % op, case, jl(res['out']), m['ord'])
       continue
     mv = [dec(b) for b in m['vals']]
@@ -628,7 +651,11 @@ def witnesses(cx):
            ('witness', [NAN, 1.0]), ('witness', [1e-300, 2e-300, 3e-300]), ('witness', [0.0, 1e-13, 1.0]),
            ('witness', [2.0, 2.0, 2.0, 2.0]), ('witness', [1.0, 2.0]), ('witness', [NINF]),
            ('witness', [float(i % 7) for i in range(72)]), ('witness', [float(i) for i in range(15)] + [-1e9]),
-           ('witness', [NINF, 1e30])]
+           ('witness', [NINF, 1e30]),
+           # witness of gauss-transform-float32-rank-noise
+           ('witness', [-881476702798.924, 2.613916198468886e-08, 0.0017522791160902889, -2406288900.926524, 0.07037440628430233,
+                        -0.054504263624107804, 0.10970676389441507, -10329149.452675166, 3.278047261141125, 0.23999717310627178,
+                        8.129167731334837e-07, -3.803827739086638e-10, -2493067220.3294663, 2099585817.7125893, 257.57797532506464])]
   tie_cases(cx, cases)
   for kind, xs in cases:
     for op in ('default', 'halfrank', 'log', 'infeasible'):
